@@ -67,9 +67,10 @@ def mode_cv(
     if classical:
         return np.array(len(freqs) * [Kb])
     else:
-        x = freqs / Kb / temp
-        expVal = np.exp(x)
-        return Kb * x**2 * expVal / (expVal - 1.0) ** 2
+        # Overflow-free form of x^2 exp(x) / (exp(x) - 1)^2.
+        x = freqs / (Kb * temp)
+        em = -np.expm1(-x)
+        return Kb * (x * np.exp(-x) / em) * (x / em)
 
 
 def mode_F(
@@ -123,10 +124,10 @@ def mode_S(
     if classical:
         return Kb - Kb * np.log(freqs / (Kb * temp))
     else:
-        val = freqs / (2 * Kb * temp)
-        return 1 / (2 * temp) * freqs * np.cosh(val) / np.sinh(val) - Kb * np.log(
-            2 * np.sinh(val)
-        )
+        # Overflow-free form of x / (exp(x) - 1) - log(1 - exp(-x)).
+        x = freqs / (Kb * temp)
+        em = -np.expm1(-x)
+        return Kb * (x * np.exp(-x) / em - np.log(em))
 
 
 def mode_ZPE(
